@@ -12,7 +12,7 @@
 import numpy as np
 
 from harness import ws
-from harness.core import setup_repo_imports
+from harness.core import run_forked, setup_repo_imports
 
 PRIME = 997
 
@@ -92,15 +92,21 @@ def run(ctx):
             ctx.violation({"where": "native", "kind": "sanitizer", "shape": [nk, nth], "ihmax": ihmax},
                           "sanitizer/driver failure rc=%d" % rc, err[-3000:])
             continue
-        for v, (p, npart) in zip(r.vectors, res):
+        def inproc(vectors=r.vectors, nk=nk, nth=nth, ihmax=ihmax):
+            return [specpart.partition(np.array(v["e"], dtype="float32").reshape(nk, nth), ihmax).ravel().tolist()
+                    for v in vectors]
+        kind, pys = run_forked(inproc)
+        if kind == "crash":
+            ctx.violation({"where": "native", "kind": "crash-in-extension", "shape": [nk, nth], "ihmax": ihmax},
+                          "the Python extension crashed the interpreter while replaying enumerated inputs: %s" % pys)
+            continue
+        for v, (p, npart), pp in zip(r.vectors, res, pys):
             nontriv = len(set(v["e"])) > 1
             ctx.case(("v", nk, nth, ihmax, tuple(v["e"])), nontriv)
-            a = np.array(v["e"], dtype="float32").reshape(nk, nth)
-            pp = specpart.partition(a, ihmax)
-            if list(p) != v["p"] or npart != v["np"] or pp.ravel().tolist() != v["p"]:
+            if list(p) != v["p"] or npart != v["np"] or pp != v["p"]:
                 ctx.violation({"where": "replay", "shape": [nk, nth], "ihmax": ihmax, "e": v["e"]},
                               "C routine label map differs from the specification's",
-                              {"input": v["e"], "spec": v["p"], "driver": list(p), "python": pp.ravel().tolist(),
+                              {"input": v["e"], "spec": v["p"], "driver": list(p), "python": pp,
                                "npart": [v["np"], npart]})
             else:
                 ctx.replayed()
@@ -118,7 +124,10 @@ def run(ctx):
         plan = [((6, 6), 60), ((5, 8), 40), ((12, 12), 24), ((3, 7), 40), ((9, 4), 40), ((1, 9), 20), ((7, 2), 20),
                 ((8, 8), 30), ((10, 10), 16), ((25, 24), 6), ((16, 12), 8), ((2, 9), 20), ((4, 4), 60)]
         ihs = (1, 2, 3, 4, 5, 10, 50, 100, 200)
-    cases, pairflag = [], []
+    # equal-product shape families (6x4/4x6/...) are interleaved on purpose: the routine keeps static
+    # work buffers and a neighbour table between calls, so the order of shapes is part of the input
+    plan += [((6, 4), 4), ((4, 6), 4), ((3, 8), 3), ((8, 3), 3), ((2, 12), 2), ((12, 2), 2), ((1, 24), 2), ((24, 1), 2)]
+    units = []
     skipped = 0
     for (nk, nth), n in plan:
         for t in range(n):
@@ -127,8 +136,14 @@ def run(ctx):
             if not ws.level_tie_free(c[3], ih) or not ws.level_tie_free(shift(c)[3], ih):
                 skipped += 1
                 continue
-            cases += [c, shift(c)]
-            pairflag += [0, 1]
+            units.append([c, shift(c)])
+            if t % 5 == 4:    # a constant spectrum in between (early-return path with the buffers of another shape)
+                units.append([(nk, nth, ih, [7] * (nk * nth))])
+    rng.shuffle(units)
+    cases, pairflag = [], []
+    for u in units:
+        cases += u
+        pairflag += [0, 1] if len(u) == 2 else [2]
     res, events, rc, err = ws.record_traces(cases, sanitize=True)
     if rc != 0 or len(res) != len(cases) or len(events) != len(cases):
         ctx.violation({"where": "native", "kind": "sanitizer-trace"}, "sanitizer/driver failure while recording rc=%d" % rc,
@@ -137,7 +152,7 @@ def run(ctx):
         groups = {}
         index = {}
         for i, (c, ev, o) in enumerate(zip(cases, events, res)):
-            groups.setdefault(c[:3], []).append(ws.trace_lines(i, c, ev, o, pair=pairflag[i]))
+            groups.setdefault(tuple(c[:3]), []).append(ws.trace_lines(i, c, ev, o, pair=pairflag[i]))
             index[i] = c
             ctx.case(("t",) + tuple(c[:3]) + tuple(c[3]), len(set(c[3])) > 1)
         acc, rej = ws.validate_traces(ctx, groups, checkpost=True)
